@@ -10,9 +10,16 @@ Why(ob, D) ==
   ELSE LET it == ob.abs.items[1] IN HintsWhy(it.elem, Export(ob, it.name), OptsOf(ob, D))
 
 ListedDevs == {"Dev_ComputedModelListenerNoColon"}
+
+(* trace validation of AttrsFold.tla: the real `attrs_done` event of the element carries the predicted fields *)
+Field(e, f) == IF f \in DOMAIN e THEN e[f] ELSE "<absent>"
+Drift(ob) ==
+  IF ob.drv.term.k # "return" \/ "fold" \notin DOMAIN ob.abs \/ ob.abs.fold = <<>> THEN 0
+  ELSE LET real == SelectSeq(ob.drv.hooks, LAMBDA e : e.ev = "attrs_done")  p == ob.abs.fold[1] IN
+       IF Len(real) = 1 /\ \A f \in DOMAIN p : Field(real[1], f) = p[f] THEN 0 ELSE 1
 Init == c \in 1..NObs /\ done = FALSE
 Finish ==
   /\ ~done /\ done' = TRUE /\ c' = c
-  /\ LET ob == Obs[c] IN PrintT(ToJson(Judged(ob, Why, ListedDevs, ob.abs.opts.optimize)))
+  /\ LET ob == Obs[c] IN PrintT(ToJson([drift |-> Drift(ob)] @@ Judged(ob, Why, ListedDevs, ob.abs.opts.optimize)))
 Next == Finish
 =============================================================================
